@@ -174,7 +174,7 @@ def replay(kind, names, ops, order, pre=None):
             out[i] = do_op(hs[i], ops[i])
         except Exception as e:      # noqa
             out[i] = 'e:' + exc_name(e)
-    ths = [threading.Thread(target=body, args=(i,), name=f'T{i}') for i in range(len(hs))]
+    ths = [threading.Thread(target=body, args=(i,), name=f'T{i}', daemon=True) for i in range(len(hs))]
     try:
         for t in ths:
             t.start()
@@ -267,18 +267,22 @@ def lock_ranks(traces):
 
 
 def deadlock_schedules(traces, cyc):
-    """schedules in which each thread of a lock-order cycle first takes its outer lock and then asks for the inner one"""
+    """schedules that bring two threads to a pair of opposite nested acquisitions: a holds h and asks for l, b holds l and asks
+    for h; each thread runs alone up to (not including) its acquisition, then both continue"""
     n = [len(t) for t in traces]
-    stops = {}
+    nested = []
     for a, tr in enumerate(traces):
         for i, e in enumerate(tr):
-            if e[1] == 'acq' and e[3] and e[2] in cyc and any(h in cyc for h in e[3]):
-                stops.setdefault(a, i)
-    ths = sorted(stops)
-    if len(ths) >= 2:
-        a, b = ths[0], ths[1]
-        yield [a] * stops[a] + [b] * stops[b] + [a] * (n[a] - stops[a]) + [b] * (n[b] - stops[b])
-        yield [b] * stops[b] + [a] * stops[a] + [b] * (n[b] - stops[b]) + [a] * (n[a] - stops[a])
+            if e[1] == 'acq' and e[3]:
+                nested.append((a, i, set(e[3]), e[2]))
+    seen = 0
+    for a, ia, ha, wa in nested:
+        for b, ib, hb, wb in nested:
+            if a != b and wa in hb and wb in ha:
+                seen += 1
+                if seen > 6:
+                    return
+                yield [a] * ia + [b] * ib + [a] * (n[a] - ia) + [b] * (n[b] - ib)
 
 
 def candidate_schedules(traces, shared):
@@ -333,6 +337,8 @@ class C15(Check):
             for i, a in enumerate(hs):
                 for b in hs:
                     if a == b and kind != 'windows':
+                        # two handles of the same kind: one plain pair is enough
+                        yield {'kind': kind, 'names': [a, b], 'ops': [['r', 1, 24], ['r', 7, 16]]}
                         continue
                     yield {'kind': kind, 'names': [a, b], 'ops': [['r', 1, 24], ['r', 7, 16]]}
                     if i == 0 or a in ('full', 'raw-0', 'c0.raw-exefs'):
@@ -411,7 +417,16 @@ class C15(Check):
                 yield c
 
     def neighbours(self, case, rng):
-        return []
+        # the same handle kinds paired with themselves and with each other (a lock-order contradiction inside one handle's own
+        # operation becomes a deadlock between two such handles)
+        names = list(dict.fromkeys(case['names']))
+        for a in names:
+            for b in names:
+                yield {'kind': case['kind'], 'names': [a, b], 'ops': [['r', 1, 24], ['r', 7, 16]]}
+        for a in names:
+            for b in HANDLES[case['kind']]:
+                if b not in names:
+                    yield {'kind': case['kind'], 'names': [a, b], 'ops': [['r', 1, 24], ['r', 7, 16]]}
 
 
 def compress(order):
